@@ -28,7 +28,8 @@ THEOREMS = [
     (P + "old_protocol_deadlocks_after_delivery", "proved", "second window of the old protocol: after delivering, before erasing the map entry"),
 ]
 LEAN_FILES = ["UscxmlVerif.Properties.C09"]
-G = 6          # ms of timer granularity granted to the implementation
+G = 15         # ms of timer granularity granted to the implementation: libevent measures with CLOCK_MONOTONIC_COARSE (4 ms ticks here,
+               # later in a virtual machine whose ticks are delayed) at event_add and at expiry; the log truncates to ms
 POINTS = ["delayq.run.before_loop", "delayq.stop.before_break", "delayq.timer.entry", "delayq.timer.before_deliver",
           "delayq.timer.after_deliver", "delayq.cancel.before_del"]
 
@@ -43,7 +44,7 @@ def gen_script(r):
         elif x < 0.75: ops.append("cancelall")
         else: ops.append("wait:%d" % r.choice([1, 5, 10, 20, 30, 50]))
     ops.append("wait:%d" % r.choice([0, 20, 100]))
-    hooks = ",".join("%s=%d:%d" % (p, r.choice([3, 15, 40]), r.choice([1, 2, 4])) for p in r.sample(POINTS, r.choice([0, 1, 1, 2, 3]))) or "-"
+    hooks = ",".join("%s=%d:%d" % (p, r.choice([3, 20, 40]), r.choice([1, 2, 4])) for p in r.sample(POINTS, r.choice([0, 1, 1, 2, 3]))) or "-"
     return ",".join(ops), hooks
 
 
@@ -58,6 +59,7 @@ def to_actions(script, log):
     armed = {}              # key -> index of the entry whose timer may fire
     detached = {}           # key -> list of indices detached and not disposed
     cur = None              # index the timer thread's callback runs for
+    called = 0
     ready = {}
     def advance(ts):
         nonlocal now
@@ -68,12 +70,14 @@ def to_actions(script, log):
         if not m: continue
         ts, what, key = int(m.group(1)), m.group(2), m.group(3)
         k = ord(key[0]) - 96 if key and key != "-" else 0
-        if what == "enqueued":
+        if what == "send-call":
+            called = ts                 # taken before enqueueDelayed is entered: the timer is armed no earlier
+        elif what == "enqueued":
             advance(ts)
             delay = int(sends[send_i][2]); send_i += 1
-            idx = len(entries); entries.append(dict(key=key, due=now + delay, enq=now, delay=delay))
+            idx = len(entries); entries.append(dict(key=key, due=called + delay, enq=called, delay=delay, due_hi=ts + delay, enq_hi=ts))
             armed[key] = idx
-            acts.append("enqueue:%d:%d" % (k, now + delay))
+            acts.append("enqueue:%d:%d" % (k, called + delay))
         elif what in ("detach", "detach-none"):
             advance(ts)
             acts.append("detach:%d" % k)
@@ -156,10 +160,11 @@ def suite_schedules(ctx, n):
             for i, e in enumerate(entries):
                 if ready.get(i, 0) > 1: why = "event %s delivered %d times" % (e["key"], ready[i])
                 if "ready" in e and e["ready"] + G < e["enq"] + e["delay"]: why = "event %s (delay %d ms, enqueued at %d) delivered early at %d" % (e["key"], e["delay"], e["enq"], e["ready"])
-            dl = sorted((e["ready"], e["due"], e["key"]) for e in entries if "ready" in e)
-            for (r1, d1, k1), (r2, d2, k2) in zip(dl, dl[1:]):
-                # both were enqueued before the earlier one became due and no hook delayed the callbacks
-                if hooks == "-" and d1 > d2 + 2 * G and all(e["enq"] <= d2 for e in entries if e["key"] in (k1, k2) and "ready" in e):
+            dl = sorted((e["ready"], e["due"], e["key"], e["due_hi"]) for e in entries if "ready" in e)
+            for (r1, d1, k1, _), (r2, _, k2, d2) in zip(dl, dl[1:]):
+                # the later one was certainly due (d2: armed no later than its `enqueued` line) well before the earlier one could be
+                # (d1: armed no earlier than its send-call line), both were enqueued before that and no hook delayed the callbacks
+                if hooks == "-" and d1 > d2 + 2 * G and all(e["enq_hi"] <= d2 for e in entries if e["key"] in (k1, k2) and "ready" in e):
                     why = "event %s (due %d) was delivered before %s (due %d)" % (k1, d1, k2, d2)
         st["deliveries"] += sum(ready.values())
         st["cancels_found"] += sum(1 for t in toks if ":detach:" in t)
@@ -179,18 +184,22 @@ def delay_doc(rng):
     n = rng.randint(2, 6)
     slots = rng.sample(range(1, 9), n)                  # distinct multiples of 40 ms
     sends = [(i, 40 * s) for i, s in enumerate(slots)]
-    now_cancel = set(i for i, _ in sends if rng.random() < 0.2)
-    order = sorted((d, i) for i, d in sends if i not in now_cancel)
-    later = {}                                          # on receiving d_k cancel id_j (j due later)
+    # a sendid is not unique: several pending sends may share one, a cancel removes all of them
+    nid = rng.choice([n, n, max(1, n - 1), max(1, n // 2)])
+    sid = dict((i, rng.randrange(nid)) for i, _ in sends)
+    now_cancel = set(sid[i] for i, _ in sends if rng.random() < 0.15)
+    order = sorted((d, i) for i, d in sends if sid[i] not in now_cancel)
+    later = {}                                          # on receiving d_k cancel the sends with id g that are still pending
     dead = set()
     for pos, (d, i) in enumerate(order):
         if i in dead: continue
-        cands = [j for dd, j in order[pos + 1:] if j not in dead]
-        if cands and rng.random() < 0.35:
-            j = rng.choice(cands); later[i] = j; dead.add(j)
-    body = "".join('<send event="d%d" delay="%dms" id="id%d"/>' % (i, d, i) for i, d in sends)
-    body += "".join('<cancel sendid="id%d"/>' % i for i in now_cancel)
-    trans = "".join('<transition event="d%d"><cancel sendid="id%d"/></transition>' % (i, j) for i, j in later.items())
+        cands = sorted(set(sid[j] for dd, j in order[pos + 1:] if j not in dead))
+        if cands and rng.random() < 0.4:
+            g = rng.choice(cands); later[i] = g
+            dead.update(j for dd, j in order[pos + 1:] if sid[j] == g)
+    body = "".join('<send event="d%d" delay="%dms" id="id%d"/>' % (i, d, sid[i]) for i, d in sends)
+    body += "".join('<cancel sendid="id%d"/>' % g for g in sorted(now_cancel))
+    trans = "".join('<transition event="d%d"><cancel sendid="id%d"/></transition>' % (i, g) for i, g in later.items())
     doc = ('<scxml xmlns="http://www.w3.org/2005/07/scxml" version="1.0" datamodel="null"><state id="s"><onentry>%s</onentry>%s</state></scxml>' % (body, trans))
     expect = ["d%d" % i for d, i in order if i not in dead]
     return doc, expect, 40 * max(slots) + 150
@@ -231,6 +240,7 @@ def run(ctx):
     ctx.setup(variants=("asan",))
     ctx.audit(THEOREMS, LEAN_FILES)
     quick = ctx.tier == "quick"
+    run_dq(ctx, ["send:a:1,send:b:3,cancel:b,wait:8\t-"] * 32)      # discarded: pages the sanitizer build in before anything is timed
     suite_schedules(ctx, 600 if quick else 20000)
     suite_charts(ctx, 40 if quick else 1200)
     s1, s2 = ctx.coverage["suites"]["dq-schedules"], ctx.coverage["suites"]["chart-delays"]
@@ -238,7 +248,7 @@ def run(ctx):
     ctx.coverage["distinct_nontrivial"] = s1["races"]
     ctx.coverage["rule"] = ("random scripts of 2-12 enqueue (delays 1-80 ms, 6 keys, re-used keys replace) / cancel / cancelAll / wait operations against the compiled BasicDelayedEventQueue "
                             "with 0-3 schedule hooks sleeping 3-40 ms at the timer thread's and the canceller's protocol points, plus directed races; non-trivial = a cancel met a timer callback "
-                            "that had already started; charts with 2-6 delayed sends at distinct multiples of 40 ms and immediate or event-triggered cancels, both engines")
+                            "that had already started; charts with 2-6 delayed sends at distinct multiples of 40 ms, sendids shared by several pending sends or not, and immediate or event-triggered cancels, both engines")
     ctx.assumptions += ["libevent fires a timer only when due, once per event_add, one callback at a time; event_del waits for a running callback (trusted base)",
                         "time is compared at millisecond resolution with %d ms granularity granted" % G,
                         "the order of log lines of different threads is the order in which they took the harness' log mutex (inside the queue's locked sections where the protocol needs it)"]
